@@ -70,6 +70,9 @@ def run_shard(shard, tier, seed, wd, res):
         for v in values(ty, rng, 6 if q else 30):
             for cflag in flags:
                 b = s.op("ser", v, V.t(cflag), V.n(rng.choice([0, 0, 1, 5])), V.n(-1))
+                # writers that take one byte / seven bytes per call, and writers that report Interrupted on every other call
+                for ch in (1, 7, 1000, 1003):
+                    s.op("ser", v, V.t(cflag), V.n(ch), V.n(-1))
                 for mode in (0, 1, 2, 3, 4):
                     s.op("deser", V.s(ty), b, V.t(cflag), V.n(mode), V.n(-1))
                 if pointy:
